@@ -806,7 +806,8 @@ Definition no_fuel (r : out) : Prop := norm_out r <> [RExn EOutOfFuel].
    Insert family: the table is the one [pre] was read from, a minimum load factor is well formed,
    no automatic doubling below the minimum load factor is visible, a maximum-hashpower exception
    leaves the table AT the maximum, and the exception is not the model's fuel artefact.
-   Rehash / reserve: a successful call leaves at least the requested hashpower / capacity. *)
+   Rehash / reserve: a successful call leaves at least the requested hashpower / capacity (reserve:
+   unless n + spb wraps in reserve_calc's 64-bit arithmetic, when the request is for a tiny table). *)
 Definition obs_consistent (tb : table) (o : op) (r : out) (pre post : obs) : Prop :=
   match o with
   | OInsert _ _ | OIoa _ _ | OUpsert _ _ _ _ | OUprase _ _ _ _ =>
@@ -816,7 +817,9 @@ Definition obs_consistent (tb : table) (o : op) (r : out) (pre post : obs) : Pro
   | ORehash n =>
       obs_pre tb pre /\ (forall b, norm_out r = [RBool b] -> n <= o_hp post) /\ no_fuel r
   | OReserve n =>
-      obs_pre tb pre /\ (forall b, norm_out r = [RBool b] -> n <= N.shiftl 1 (o_hp post) * spb_) /\ no_fuel r
+      obs_pre tb pre /\
+      (forall b, norm_out r = [RBool b] ->
+         18446744073709551616 <= n + spb_ \/ n <= N.shiftl 1 (o_hp post) * spb_) /\ no_fuel r
   | _ => True
   end.
 
@@ -1154,7 +1157,9 @@ Proof.
     rewrite E1, E2.
     assert (E3 : out_eqb r [RBool (negb (reserve_calc c n =? o_hp pre))] = true).
     { apply out_eqb_of_norm. rewrite Hr, (proj1 Hpre). f_equal. f_equal. apply changed_bool. exact Hb. }
-    rewrite E3, (proj2 (N.leb_le _ _) (Hbig b Hr)). exists (inval s). split; [reflexivity|exact P].
+    assert (E4 : (18446744073709551616 <=? n + spb_) || (n <=? N.shiftl 1 (o_hp post) * spb_) = true).
+    { apply orb_true_iff. destruct (Hbig b Hr) as [X|X]; [left|right]; apply N.leb_le; exact X. }
+    rewrite E3, E4. exists (inval s). split; [reflexivity|exact P].
   - destruct (resize_exn_accepted tb pre r e _ Hpre Hnf Hr Hne He Hlf) as [E1 E2]. rewrite E1, E2.
     exists (inval s). split; [reflexivity|exact P].
 Qed.
